@@ -96,7 +96,9 @@ CompositeOps == {"merge", "quantise_and_normalise", "scale_requantise", "transpo
 AbsReadOps == {"read_abs", "equals", "get_message_pairings", "get_interleaved_message_pairings",
                "get_message_times_of_type", "get_sequence_channel", "get_sequence_duration",
                "is_channel_consistent"}
-RelReadOps == {"read_rel", "get_sequence_duration_relation", "is_empty", "to_midi_track", "split"}
+(* split_edit_parts: split, then in-place operations on the returned parts (the parts are values of their own: the
+   object itself only had its relative view read) *)
+RelReadOps == {"read_rel", "get_sequence_duration_relation", "is_empty", "to_midi_track", "split", "split_edit_parts"}
 IterOps == {"iter_abs", "iter_abs_edit", "iter_abs_break", "iter_abs_readother", "iter_abs_edit_readother",
             "iter_rel", "iter_rel_edit", "iter_rel_break", "iter_rel_readother", "iter_rel_edit_readother"}
 OtherOps == {"overwrite_absolute_messages", "overwrite_relative_messages", "refresh", "copy",
